@@ -1580,6 +1580,14 @@ EGLPNUM_TYPENAME_QSLIB_INTERFACE int EGLPNUM_TYPENAME_QSchange_coef (
 	rval = EGLPNUM_TYPENAME_ILLlib_chgcoef (p->lp, rowindex, colindex, coef);
 	CHECKRVALG (rval, CLEANUP);
 
+	/* the pricing norms kept with the basis belong to the old matrix: with
+	 * a changed basic column the steepest-edge recurrences can drive a norm
+	 * to zero (division by zero in the rational dual simplex) */
+	if (p->basis)
+	{
+		EGLPNUM_TYPENAME_EGlpNumFreeArray (p->basis->rownorms);
+		EGLPNUM_TYPENAME_EGlpNumFreeArray (p->basis->colnorms);
+	}
 	p->factorok = 0;
 	free_cache (p);
 
